@@ -657,7 +657,7 @@ func writeWithWriter(g *gen, spec srcSpec, nodes []*node) ([]byte, []pdf.Referen
 	}
 	var cRefs []pdf.Reference
 	var cObjs []pdf.Object
-	cryptOK := spec.pw != "" && spec.version >= pdf.V1_5
+	cryptOK := spec.version >= pdf.V1_5
 	anyCrypt := false
 	for i, nd := range nodes {
 		ref := g.refs[i]
@@ -712,6 +712,13 @@ func writeWithWriter(g *gen, spec srcSpec, nodes []*node) ([]byte, []pdf.Referen
 		data = bytes.ReplaceAll(data, []byte("[/Crypt"), []byte(patch))
 	}
 	return data, extra
+}
+
+func b2i(b bool) int {
+	if b {
+		return 1
+	}
+	return 0
 }
 
 func must(err error) {
@@ -1074,7 +1081,7 @@ func runCase(e *common.Env, id string, variant int) {
 			nontrivial = true
 		}
 	}
-	execCase(e, id, caseCfg{src: src, all: all, calls: calls, tspec: tspec, seekable: seekable, class: class, nontrivial: nontrivial,
+	execCase(e, id, caseCfg{src: src, all: all, calls: calls, tspec: tspec, seekable: seekable, class: class, nontrivial: nontrivial, srcEnc: spec.pw != "",
 		info: map[string]any{"source_version": spec.version.String()}})
 }
 
@@ -1086,6 +1093,7 @@ type caseCfg struct {
 	seekable   bool
 	class      string
 	nontrivial bool
+	srcEnc     bool // the source file is encrypted
 	wantErr    bool // the copy must fail with a malformed-file error
 	info       map[string]any
 }
@@ -1414,7 +1422,7 @@ func execCase(e *common.Env, id string, cfg caseCfg) {
 			nsrc++
 		}
 	}
-	fmt.Fprintf(&ks, "%s.k K %d%s", id, nsrc, srcWire.String())
+	fmt.Fprintf(&ks, "%s.k K %d %d %d%s", id, b2i(cfg.srcEnc), b2i(tspec.pw != ""), nsrc, srcWire.String())
 	ntgt := 0
 	var tgtWire strings.Builder
 	for num := a0.Number() + 1; num < a1.Number(); num++ {
@@ -1440,7 +1448,45 @@ func execCase(e *common.Env, id string, cfg caseCfg) {
 		wireObj(&ks, srcRoots[i], nil)
 		wireObj(&ks, dstRoots[i], nil)
 	}
+	// what the copier and the target Writer did with the stream data: is it
+	// ciphertext in the target file?  (compared with the model's decision)
+	var obsWire, obsLine strings.Builder
+	nobs := 0
+	seenT := map[pdf.Reference]bool{}
+	for _, p := range trans {
+		if seenT[p[1]] {
+			continue
+		}
+		seenT[p[1]] = true
+		sv, _, ok := srcView.chain(p[0])
+		sst, isStream := sv.(*pdf.Stream)
+		if !ok || !isStream || redirected[p[0]] {
+			continue
+		}
+		to, ok := dstView.get(p[1])
+		tst, isT := to.(*pdf.Stream)
+		if !ok || !isT {
+			continue
+		}
+		flag := 2
+		rc, err := pdf.RawStreamReader(src, sst)
+		if err == nil {
+			payload, err1 := io.ReadAll(rc)
+			onDisk, err2 := io.ReadAll(tst.NewReader())
+			if err1 == nil && err2 == nil && len(payload) > 0 {
+				flag = 1
+				if bytes.Equal(payload, onDisk) {
+					flag = 0
+				}
+			}
+		}
+		fmt.Fprintf(&obsWire, " %d %d", uint64(p[1]), flag)
+		fmt.Fprintf(&obsLine, " %d:%d", uint64(p[1]), flag)
+		nobs++
+	}
+	fmt.Fprintf(&ks, " %d%s", nobs, obsWire.String())
 	e.Line("cases.txt", "%s", ks.String())
+	e.Line("impl.obs", "%s.k.y%s", id, obsLine.String())
 	e.Line("impl.obs", "%s.k iso 1", id)
 	e.Line("impl.obs", "%s.k.cs %s", id, cs)
 	e.Line("impl.obs", "%s.k.ct %s", id, ct)
